@@ -221,6 +221,8 @@ def run(model, R):
     # drawn are the ones Lattice._annotate computed (C10's labelling rules are a dependency)
     from . import c10
     R.guard('LABELLING', None, '_annotate', c10.annotate_rules, model, R)
+    from .common import no_unpickle_shortcut
+    R.guard('LABELLING', None, '_init call sites', no_unpickle_shortcut, model, R, 'LABELLING')
     return __doc__.strip()
 
 
